@@ -504,3 +504,74 @@ pub fn simulate(a: &Auto, scanner: &scnr::Scanner, s: &str) -> BTreeSet<usize> {
 pub fn preds_bitsets(preds: &Preds) -> Vec<BitSet> {
     (0..preds.len()).map(|i| preds.bitset(i)).collect()
 }
+
+/// Exact behavioural equivalence of two built scanners: same number of modes, same mode names and
+/// transitions, and per mode and per lookahead language-equivalent automata (same token types,
+/// same lookahead polarity). Equivalence rather than equality of dumps, so that a harmless change
+/// in state numbering is not an alarm. Ok(product states explored) or Err(description).
+pub fn scanners_equivalent(a: &scnr::Scanner, b: &scnr::Scanner) -> Result<usize, String> {
+    let (da, db) = (a.verif_dump(), b.verif_dump());
+    if da.len() != db.len() {
+        return Err(format!("{} modes vs {} modes", da.len(), db.len()));
+    }
+    let (ca, cb) = (class_table(a), class_table(b));
+    let mut all: Vec<&BitSet> = ca.sets.iter().collect();
+    all.extend(cb.sets.iter());
+    let at = atoms(&all);
+    let (off_a, off_b) = (0, ca.sets.len());
+    let mut states = 0;
+    let check_ids = |d: &AutomatonDump, n: usize| d.transitions.iter().all(|t| t.1 < n);
+    for (mi, (ma, mb)) in da.iter().zip(db.iter()).enumerate() {
+        if ma.name != mb.name {
+            return Err(format!("mode {}: names {:?} vs {:?}", mi, ma.name, mb.name));
+        }
+        if ma.transitions != mb.transitions {
+            return Err(format!(
+                "mode {}: transitions {:?} vs {:?}",
+                mi, ma.transitions, mb.transitions
+            ));
+        }
+        if ma.automaton.token_types != mb.automaton.token_types {
+            return Err(format!(
+                "mode {}: token types in priority order {:?} vs {:?}",
+                mi, ma.automaton.token_types, mb.automaton.token_types
+            ));
+        }
+        let mut pairs: Vec<(&AutomatonDump, &AutomatonDump, String, bool)> =
+            vec![(&ma.automaton, &mb.automaton, format!("mode {}", mi), false)];
+        if ma.automaton.lookaheads.len() != mb.automaton.lookaheads.len() {
+            return Err(format!("mode {}: different number of lookaheads", mi));
+        }
+        for (la, lb) in ma.automaton.lookaheads.iter().zip(mb.automaton.lookaheads.iter()) {
+            if la.token_type != lb.token_type || la.is_positive != lb.is_positive {
+                return Err(format!(
+                    "mode {}: lookahead (token type {}, positive {}) vs (token type {}, positive {})",
+                    mi, la.token_type, la.is_positive, lb.token_type, lb.is_positive
+                ));
+            }
+            pairs.push((
+                &la.automaton,
+                &lb.automaton,
+                format!("lookahead of token type {} in mode {}", la.token_type, mi),
+                true,
+            ));
+        }
+        for (x, y, what, boolean) in pairs {
+            if !check_ids(x, ca.sets.len()) || !check_ids(y, cb.sets.len()) {
+                return Err(format!("{}: unregistered class id", what));
+            }
+            let (ax, ay) = (Auto::new(x)?, Auto::new(y)?);
+            match compare_automata(&ax, off_a, &ay, off_b, &at, 200_000, boolean) {
+                Verdict::Equal { product_states } => states += product_states,
+                Verdict::Capped { .. } => {}
+                Verdict::Differ(d) => {
+                    return Err(format!(
+                        "{}: on {:?} one scanner accepts token types {:?}, the other {:?}",
+                        what, d.witness, d.left, d.right
+                    ))
+                }
+            }
+        }
+    }
+    Ok(states)
+}
